@@ -11,13 +11,14 @@ import (
 )
 
 type SExpr struct {
-	Op    string // "id","int","str","bin","un","call","sel","idx","slice","cond","forall","exists","type"
-	Name  string // id / field / operator / callee name
-	Args  []*SExpr
-	Binds []SBind // quantifier binders
-	Int   int64
-	Str   string
-	Pos   int
+	Op       string // "id","int","str","bin","un","call","sel","idx","slice","cond","forall","exists","type"
+	Name     string // id / field / operator / callee name
+	Args     []*SExpr
+	Binds    []SBind    // quantifier binders
+	Triggers [][]*SExpr // quantifier patterns
+	Int      int64
+	Str      string
+	Pos      int
 }
 
 type SBind struct {
@@ -155,6 +156,19 @@ func (p *sparser) expr() *SExpr {
 			}
 		}
 		p.expect("::")
+		// optional triggers: { e1, e2 } { e3 } ...
+		for p.isOp("{") {
+			p.next()
+			var tr []*SExpr
+			for !p.isOp("}") {
+				tr = append(tr, p.expr())
+				if !p.accept(",") {
+					break
+				}
+			}
+			p.expect("}")
+			q.Triggers = append(q.Triggers, tr)
+		}
 		q.Args = []*SExpr{p.expr()}
 		return q
 	}
